@@ -238,6 +238,10 @@ def cases(tier):
                                     "energies": ["smooth", "well", "two_basin70", "two_basin74", "two_basin77", "offset", "offset_pos", "int", "deepwell"], "Ts": [273.15, 310.0, 180.0],
                                     "decompose": dec,
                                     "ks": [6, 12], "seeds": [0, 1, 2]})
+    # a rotation grid with a sliver face (border 8.5e-6): the saved adjacency must still contain that pair
+    for o, t, cart in (("ico_5", "[0.2,0.3]", False), ("cube3D_4", "[0.1,0.25,0.3]", False)):
+        out.append({"b": "randomQ_20", "o": o, "t": t, "cartesian": cart, "f": 1, "energies": ["smooth"], "Ts": [273.15],
+                    "decompose": False, "ks": [6], "seeds": [0]})
     return out
 
 
